@@ -1,6 +1,8 @@
 package loader
 
 import (
+	"sort"
+
 	"github.com/jsightapi/jsight-schema-go-library/errors"
 	"github.com/jsightapi/jsight-schema-go-library/internal/lexeme"
 	"github.com/jsightapi/jsight-schema-go-library/notations/jschema/internal/schema"
@@ -35,7 +37,14 @@ func CompileAllOf(rootSchema *schema.Schema) {
 	c.processSchema(rootSchema)
 
 	// In case allow is used only in types (not in the root schema).
+	// In a fixed order, so that the reported error does not depend on Go's random
+	// map iteration order when several types are invalid.
+	names := make([]string, 0, len(rootSchema.TypesList()))
 	for name := range rootSchema.TypesList() {
+		names = append(names, name)
+	}
+	sort.Strings(names)
+	for _, name := range names {
 		c.processType(name)
 	}
 
